@@ -65,6 +65,16 @@ MkRetNest(par) ==
   IN [ts |-> <<Tm("main", "", <<>>, <<T("pre"), ExecLet("ex", "r", "early"), P("pr", Var("r")), outer, T("post")>>), early>>,
       globals |-> NoVarsMap, runs |-> <<RunR("main", NoVarsMap, "D"), RunR("main", NoVarsMap, "D")>>, tag |-> "retnest|" \o kd]
 
+\* a range left early through {{return}} (under exec) with elements still to come, then a range over an EMPTY
+\* collection of the same kind: the else branch renders, nothing of the abandoned iteration does
+MkRetEmpty(par) ==
+  LET kd == par[2]
+      early == Tm("early", "", <<>>, <<RangeS("re", "kv", "k", "v", ":=", ListE(kd, ElemsOf(kd, 3)), <<T("eb"), Ret("ret", Lit("rv"))>>), T("after")>>)
+      empty == RangeElse("rg", "kv", "k", "v", ":=", ListE(kd, <<>>), <<T("it"), P("bk", Var("k"))>>, <<T("empty")>>)
+      empt2 == RangeElse("rg2", "none", "", "", "", ListE(kd, <<>>), <<T("it2")>>, <<T("empty2")>>)
+  IN [ts |-> <<Tm("main", "", <<>>, <<T("pre"), ExecLet("ex", "r", "early"), P("pr", Var("r")), empty, empt2, T("post")>>), early>>,
+      globals |-> NoVarsMap, runs |-> <<RunR("main", NoVarsMap, "D"), RunR("main", NoVarsMap, "D")>>, tag |-> "retempty|" \o kd]
+
 \* the element a range binds is a value like any other: as '.', as a loop variable, in a condition or printed.
 \* Ranges over an interface slice / a string slice / a map holding false, 0, "" and truthy values; the body
 \* branches on '.' (zero-variable form) or on the loop variable
@@ -77,7 +87,7 @@ MkRangeIf(par) ==
   IN [ts |-> <<Tm("main", "", <<>>, <<T("pre"), rng, T("post")>>)>>, globals |-> NoVarsMap,
       runs |-> <<RunR("main", NoVarsMap, "D")>>, tag |-> "rangeif|" \o kind \o "|" \o form]
 
-MkC(par) == CASE par[1] = "rangeif" -> MkRangeIf(par) [] par[1] = "retnest" -> MkRetNest(par) [] par[1] = "if1" -> MkIf1(par) [] par[1] = "chain" -> MkChain(par)
+MkC(par) == CASE par[1] = "rangeif" -> MkRangeIf(par) [] par[1] = "retempty" -> MkRetEmpty(par) [] par[1] = "retnest" -> MkRetNest(par) [] par[1] = "if1" -> MkIf1(par) [] par[1] = "chain" -> MkChain(par)
               [] par[1] = "range" -> MkRange(par) [] par[1] = "nest" -> MkNest(par)
 
 IdxKinds == {"slice", "islice", "array", "ptrslice", "ints", "customidx"}
@@ -88,6 +98,7 @@ cParams == ({"if1"} \X CondVals \X BOOLEAN)
               /\ (p[4] = "none" => p[6] = "no") /\ (p[4] = "k" => p[6] \in {"no", "k"})
               /\ (p[2] \in {"nil", "bad"} => p[3] = 0)}
       \cup ({"retnest"} \X {"slice", "array", "map1"})
+      \cup ({"retempty"} \X {"slice", "array", "map", "ptrslice", "islice"})
       \cup ({"rangeif"} \X {"islice", "slice"} \X {"none", "kv"})
       \cup ({"nest"} \X IdxKinds \X (IdxKinds \ {"customidx"}) \X {TRUE})   \* a custom Ranger is a one-shot iterator
 =============================================================================
